@@ -10,11 +10,11 @@ def select(scen, rng, quick):
 
 def run(tier, seed):
     return _solve.run(
-        "C18", tier, seed, select=select, extra_cases=lambda rng, q: [], level="fault_enumeration", needs=["faulty"],
+        "C18", tier, seed, select=select, extra_cases=lambda rng, q: [], level="fault_enumeration", needs=["faulty", "partial_leaf_faults"],
         rule="fault space = iteration index 0..n-1 x origin {loss value, gradient of a network leaf, gradient of an equation parameter, "
              "optimizer update} x validation kind x options; TLC enumerates it exhaustively on Solve.tla (StopsAfterFault, "
              "ReturnedParamsFinite) and emits every terminal state; a stratified selection (origin x position x validation x masked-by-"
-             "early-stop x n) is replayed into jinns.solve with real fault injectors (NaN residual, custom_vjp poisoning one leaf, "
-             "NaN optimizer update); non-trivial = fault actually reached before another stop; distinct = scenario x driver options",
+             "early-stop x n) is replayed into jinns.solve with real fault injectors (NaN residual, custom_vjp poisoning one leaf or ONE ENTRY "
+             "of a two-entry leaf, NaN optimizer update of a whole leaf or of one entry); non-trivial = fault actually reached before another stop; distinct = scenario x driver options",
         assumptions=["tagged arithmetic (x64) decodes returned parameters, histories and tracked values exactly",
                      "a poisoned single leaf leaves the other parameters of the failing update finite: the returned set must still be the previous version"])
